@@ -1,6 +1,6 @@
 \* switch DeleteValidates = FALSE (ManifestDelete before fix 3b8373e): layout scenarios with the verdict of that variant;
 \* used only to EXPLAIN escapes the real code shows (e.g. on the reverse-of-fix seed), never to predict the current code
-CONSTANTS TitleClean = "rooted" ExtractGuard = "reroot" LinkPolicy = "skip" DeleteValidates = FALSE MaxFull = 1 MaxCore = 1
+CONSTANTS TitleClean = "rooted" ExtractGuard = "reroot" Whiteout = "none" LinkPolicy = "skip" DeleteValidates = FALSE MaxFull = 1 MaxCore = 1
   Eps = {"lay"}
 CONSTANT WithVerdict = TRUE
 INIT Init
